@@ -7,6 +7,8 @@ use crate as bevy_cobweb;
 pub mod ecs;
 pub mod react;
 pub mod result;
+#[cfg(feature = "verif")]
+pub mod verif;
 
 //API exports
 pub use bevy_cobweb_derive::*;
@@ -17,4 +19,6 @@ pub mod prelude
     pub use crate::ecs::*;
     pub use crate::react::*;
     pub use crate::result::*;
+    #[cfg(feature = "verif")]
+    pub use crate::verif::*;
 }
